@@ -122,6 +122,10 @@ func onResourceRuleUpdate(res string, rawResRules []*Rule) (err error) {
 			logging.Warn("[Isolation onResourceRuleUpdate] Ignoring invalid isolation rule", "rule", rule, "reason", err.Error())
 			continue
 		}
+		if res != rule.Resource {
+			logging.Error(errors.Errorf("unmatched resource name expect: %s, actual: %s", res, rule.Resource), "Unmatched resource name in isolation.onResourceRuleUpdate()", "rule", rule)
+			continue
+		}
 		validResRules = append(validResRules, rule)
 	}
 
